@@ -286,6 +286,24 @@ class E2Sim(object):
         # let what the fault phase left behind die (stale connections time out), then watch: every pair must
         # be connected on both sides at some instant of the window (an idle link may be torn down again
         # later - that is the listed idle-link finding, judged by the probes, not here)
+        # links that carry traffic (the leader's heartbeats) must come back within the bound even if the old flow
+        # died silently: the send path enforces connectionTimeout.  Judged only if one node led all the time.
+        t0 = CLK.now
+        self.both_up = set()
+        lead = None
+        stable = True
+        t_end = CLK.now + 2 * B
+        while CLK.now < t_end:
+            self.settle(0.25)
+            if CLK.now - t0 > 1.0:
+                ls = [a for a in self.addrs if self.objs[a]._isLeader()]
+                if len(ls) != 1 or (lead is not None and ls[0] != lead):
+                    stable = False
+                elif lead is None:
+                    lead = ls[0]
+        if stable and lead is not None:
+            self.sit['stable_leader_window'] += 1
+            self.probe_round('leader links', only=lead)
         ka = 16 + 3 * 5 + 1.0          # default tcp_keepalive=(16, 3, 5): the kernel reports a dead flow after that much silence
         self.settle(max(cfg.get('conn_timeout', 3.5), ka))
         self.both_up = set()
@@ -311,14 +329,20 @@ class E2Sim(object):
             self.settle(B)
         self.probe_round('second')
 
-    def probe_round(self, tag):
+    def probe_round(self, tag, only=None):
         nonce = len(self.probes) + 1
         sent = []
         for a in self.addrs:
             obj = self.objs[a]
             t = obj._SyncObj__transport
             for n in sorted(obj.otherNodes, key=lambda x: x.id):
+                if only is not None and a != only and n.id != only:
+                    continue
                 if not obj.isNodeConnected(n):
+                    if only is not None:
+                        raise Violation('C14', 'not_reestablished', 'link %s - %s carries the heartbeats of a leader that was stable for %.1fs of healthy '
+                                        'network, yet %s still reports the peer disconnected' % (a, n.id, 2 * (self.cfg.get('retry', 5.0) + self.cfg.get('conn_timeout', 3.5) + 1.0), a),
+                                        n=1, leader_link=True)
                     continue
                 conn = t._connections.get(n)
                 idle = None
@@ -341,15 +365,16 @@ class E2Sim(object):
                 for pn, pc in pt._connections.items():
                     if pn.id == a:
                         ridle = CLK.now - getattr(pc, '_TcpConnection__lastReadTime', CLK.now)
-                sent.append((a, n.id, nonce, ridle))
+                sent.append((a, n.id, nonce, ridle, role_a == 'follower' and role_b == 'follower'))
         self.probes[nonce] = sent
         self.settle(0.5)
-        for (a, b, nonce, ridle) in sent:
+        for (a, b, nonce, ridle, idle_link) in sent:
             k = self.probe_seen.get((a, b, nonce), 0)
             if k != 1:
                 raise Violation('C14', 'probe_not_delivered_once', 'probe %s -> %s (reported connected, send() True) arrived %d times; '
                                 'the receiving side had read nothing on that link for %.1fs' % (a, b, k, ridle if ridle is not None else -1),
-                                times=k, receiver_idle_longer_than_timeout=(ridle is not None and ridle + 1.0 > self.cfg.get('conn_timeout', 3.5)))
+                                times=k, receiver_idle_longer_than_timeout=(ridle is not None and ridle + 1.0 > self.cfg.get('conn_timeout', 3.5)),
+                                between_followers=idle_link)
         self.sit['probe_round_ok'] += 1
 
 
